@@ -342,7 +342,24 @@ func init() {
 		o.Require(len(rets) == 1, "gk", "GroupKey must be a single expression", nil)
 		v := e.X(gk, rets[0].Results[0])
 		o.Site(rets[0], "GroupKey = "+v)
-		o.Check(v == `fmt.Sprintf("%s:%s", [recv.routeKey, recv.labels])`, "gk-shape", "the group key must be routeKey:labels, is "+v, rets[0])
+		okKey := v == `fmt.Sprintf("%s:%s", [recv.routeKey, recv.labels])` ||
+			v == `((recv.routeKey + ":") + (model.LabelSet).String(recv.labels))` || v == `(recv.routeKey + (":" + (model.LabelSet).String(recv.labels)))`
+		if strings.HasPrefix(v, "(*strings.Builder).String(") && len(gk.Blocks) <= 2 {
+			// written piece by piece into one builder, in straight-line code
+			var pieces []string
+			for _, in := range AllInstrs(gk) {
+				if c, ok := in.(*ssa.Call); ok {
+					switch calleeName(&c.Call) {
+					case "(*strings.Builder).WriteString", "(*strings.Builder).WriteByte", "(*strings.Builder).WriteRune":
+						pieces = append(pieces, e.X(gk, c.Call.Args[1]))
+					}
+				}
+			}
+			j := strings.Join(pieces, " | ")
+			okKey = j == `recv.routeKey | 58 | (model.LabelSet).String(recv.labels)` || j == `recv.routeKey | ":" | (model.LabelSet).String(recv.labels)`
+			v = "builder: " + j
+		}
+		o.Check(okKey, "gk-shape", "the group key must be routeKey:labels, is "+v, rets[0])
 		rk := o.Fn("(*am/dispatch.Route).Key")
 		// Key may hand one builder down a recursive worker (worker(node, builder) writes the ancestors' part, then
 		// the node's own); the rule is then stated over the worker, and Key must return what that builder holds
@@ -500,8 +517,11 @@ func init() {
 					bad := strings.HasPrefix(cn, "time.") || strings.HasPrefix(cn, "math/rand") || strings.HasPrefix(cn, "os.")
 					o.Check(!bad, "str-impure|"+name, name+" calls "+cn, in)
 				}
-				if _, ok := in.(*ssa.Range); ok {
-					o.Fail("str-maprange|"+name, name+" iterates a map or string with non-deterministic / rune order", in)
+				if rg, ok := in.(*ssa.Range); ok {
+					// (ranging over a string visits its runes in order; only a map has no order)
+					if _, isMap := rg.X.Type().Underlying().(*types.Map); isMap {
+						o.Fail("str-maprange|"+name, name+" iterates a map: the printed form would depend on the iteration order", in)
+					}
 				}
 			}
 		}
